@@ -155,6 +155,11 @@ def r17(body):
     return _sub(r"\bfor\s+(\w+)\s+in\s+(?!vx_it)([\w\.]+\.iter\(\))", lambda m: "for %s in vx_it: %s" % (m.group(1), m.group(2)), body)
 
 
+@rule("R4", "X.sort(); X.dedup(); -> vx_sort_dedup(&mut X);   [trusted std contract]")
+def r4(body):
+    return _sub(r"\b([\w\.]+?)\s*\.\s*sort\(\s*\)\s*;\s*\1\s*\.\s*dedup\(\s*\)\s*;", lambda m: "vx_sort_dedup(&mut %s);" % m.group(1), body)
+
+
 @rule("R9", "for P in A..B { BODY } -> { let mut vx_rng = A..B; loop { match vx_rng.next() { Some(P) => { BODY } None => break, } } }   [the language reference's definition of `for`; needed because Verus for-loops reject `continue`]")
 def r9(body):
     count = 0
